@@ -114,7 +114,9 @@ def _digests(pids, seeds: int, tier="quick"):
             seed = core.run_seed(batch, pid + ":selftest", idx)
             case = prop.generate(seed, tier)
             viols, stats, keys = prop.execute(case)
-            ds.append(core.digest([case, [v.to_json() for v in viols], stats, keys]))
+            from .runner import _stable
+
+            ds.append(core.digest([case, [v.to_json() for v in viols], _stable(stats), keys]))
         out[pid] = ds
     return out
 
